@@ -255,8 +255,13 @@ class Document:
         """
         Return character relative to cursor position, or empty string
         """
+        index = self.cursor_position + offset
+        if index < 0:
+            # (A negative index would wrap around to the end of the text.)
+            return ""
+
         try:
-            return self.text[self.cursor_position + offset]
+            return self.text[index]
         except IndexError:
             return ""
 
